@@ -28,6 +28,42 @@ CHECKS = {
   text="Theorems (CmProps/C16.lean): (a) mode 2 returns mode 1's result whenever mode 1 succeeds (definitional, lifted to check_and_fix_contrast); (b) simulation: with the same target and schedule a weaker minimum can only stop earlier on a passing colour (gen_weaker_min), lifted through all three strategies to 'very_readable succeeds => ordinary succeeds' for every mode, using target_same and min_le from the threshold table. Tie: whole-pipeline correspondence + implementation-vs-implementation comparison through the public API.",
   note=TB + "order laws as hypotheses.",
   tech="Lean 4 proof (simulation between two runs) + differential correspondence", ref="6 C16"),
+ "C05": dict(
+  text="Theorems about the model at the real-number carrier (CmProps/C05.lean, C05cert.lean): luminance in [0,1], 0 only for black and 1 only for white, strictly monotone per channel; ratio symmetric, in [1,21], 1 on equal colours, 21 exactly for black/white; 0.03928 vs 0.04045 immaterial on 8-bit values; level_iff (inclusive thresholds); and a certified executable verdict: a 256-entry rational enclosure table of the linearisation proved sound via lo^5 <= x^12 <= hi^5 (decide +kernel) and certVerdict_sound over the reals. The same generic definitions run at Float in the driver and are compared bit-for-bit with the code (exhaustively on all 2^24 colours in the thorough tier), and with a 60-digit decimal reference typed from WCAG 2.",
+  note=TB + "modelled not verified: IEEE rounding inside pow (bounded by the certified enclosures only for threshold verdicts).",
+  tech="Lean 4 proof over the reals + certified rational enclosures + exhaustive differential correspondence", ref="6 C05"),
+ "C06": dict(
+  text="Theorems (CmProps/C06*.lean): the output-format table of format_color, and (as they are merged) the exact round trips of hex / rgb() / tuple output through the modelled parser for all 2^24 colours and of HSL over exact rational arithmetic. Tie: format_color -> parse_color_to_rgb and -> tinycss2.color3 on every colour x {hex, rgb(), hsl(), tuple} (exhaustive in the thorough tier), compared with the model's formatter/reader; format mapping through make_readable for every input spelling x outcome, compared with the model's makeReadable.",
+  note=TB + "repr(float)/float(str) are exact inverses (decimal text of the HSL numbers is not modelled); double rounding inside rgb_to_hsl/hsl_to_rgb is decided by the exhaustive sweep, not by theorem.",
+  tech="Lean 4 proof (List Char round trips, exact HSL) + exhaustive differential correspondence", ref="6 C06"),
+ "C07": dict(
+  text="The keyword table is regenerated from named_colors.py into CmGen/NamedColors.lean on every run and the theorems that mention it are re-checked by lake build; theorems over the exact rational model of the parser (as merged): keyword table = CSS Color 3 + rebeccapurple, hex in any case with/without '#', nearest-8-bit channel for integer/percentage components, HSL = the CSS3 algorithm for any hue, compositing bounds. Tie: the Python parser is compared with the same generic parser run at Float (exact agreement expected) and at Rat (differences only at rounding ties, counted), and with the CSS definition via tinycss2.color3, on all keywords x case, hex (exhaustive in thorough), 200k functional values with case/whitespace variants.",
+  note=TB + "Unicode classes (isspace, decimal digits, lower) are an oracle parameter of the model; the harness ships the classes of non-ASCII characters with each input. Plain decimal notation only.",
+  tech="translator-regenerated table + Lean 4 proof over exact rationals + differential correspondence", ref="6 C07"),
+ "C10": dict(
+  text="Theorems at the real carrier (CmProps/C10.lean): L in [0,1], C >= 0, H in [0,360) (from Complex.arg); for ANY carrier: every triple converts to a valid 8-bit colour, the safe variants equal the plain ones on valid input; inverse-matrix rows sum to 1 hence C = 0 gives a grey, L=0 black, L=1 white. The exact agreement of doubles with the definition and the lossless round trip are decided by correspondence: forward conversion, ranges and round trip on all 2^24 colours in the thorough tier (bit-identical to the Float model), inverse on a dense grid incl. out-of-gamut, invalid input for the safe variants, independent transcription of Ottosson's definition and published sample values.",
+  note=TB + "losslessness on all 2^24 colours is an exhaustive correspondence run, labelled as such, not a theorem (native_decide deliberately not used).",
+  tech="Lean 4 proof over the reals / any carrier + exhaustive differential correspondence", ref="6 C10"),
+ "C11": dict(
+  text="Theorems at the real carrier (CmProps/C11.lean): CIEDE2000 is symmetric, non-negative, zero on identical colours, its radicand is non-negative (|R_T| <= 2), every divisor is >= 1 or > 0 and every square-root argument non-negative (the real-number content of 'never raises'), L* in [0,100]. Agreement with the CIE definitions to 0.05 is numeric: Lab on all 2^24 colours (thorough) and dE on random / unit-step / near-neutral / hue-wrap pairs are bit-identical to the Float model, which reproduces the 34 published Sharma-Wu-Dalal pairs; the pairs are also fed through the implementation; an independent transcription with CIE's exact constants agrees within 3e-4.",
+  note=TB + "agreement to 0.05 is decided by sweeps against independent references, not by theorem.",
+  tech="Lean 4 proof over the reals + published test data + differential correspondence", ref="6 C11"),
+ "C12": dict(
+  text="Theorems (CmProps/C12.lean): the bulk loop (modelled as the accumulator fold it is) equals map entry, hence one result per entry in order, position independence (bulk_get), bulk_append, bulk_perm; invalid entries come back unchanged with 'invalid color', which is none of the readability strings; a valid entry carries exactly make_readable's colour. Tie: bulk vs per-entry ColorPair calls on generated lists (empty, duplicates, permutations, invalid entries, mixed arities, all spellings) x mode x very_readable, status vs the WCAG label of the returned colour (60-digit reference), and vs the model's fold.",
+  note=TB + "the status clause relies on the returned colour being re-readable (C06).",
+  tech="Lean 4 proof (fold = map) + differential correspondence", ref="6 C12"),
+ "C13": dict(
+  text="Theorems (CmProps/C13.lean): ColorPair parses the background first and passes its rgb as the compositing context of the text colour; a background is composited over white; is_readable/make_readable receive the composite. Numeric bounds of the blend (within 1/2 resp. < 1 per channel) are part of the C07 theorem set over exact rationals. Tie: (foreground, alpha, background) triples in rgba()/hsla()/RGBA-tuple spellings incl. alpha next to 0 and 1, compared with exact rational blends, with the model's ColorPair and makeReadable, and with make_readable on the composite.",
+  note=TB + "exact blend reference uses tinycss2.color3 for the CSS-defined HSL channels.",
+  tech="Lean 4 proof (data flow of the compositing context) + differential correspondence", ref="6 C13"),
+ "C14": dict(
+  text="The model gives every raising Python operation an explicit Except outcome (ValueError / TypeError / OverflowError) and Color.new records the first two as 'invalid'. Theorem so far: float(str) fails with ValueError only; the totality theorem over the full PyVal domain is being added. Tie: outcome-class comparison (valid rgb | invalid | raised) between Color/ColorPair and the model on near-miss CSS (truncations, stray units/signs, nested parentheses, var(), CSS-wide keywords, odd whitespace, Unicode digits) and typed sequences over ints, floats incl. nan/inf, strings, None, bools, containers; plus the invalid-pair behaviour of is_readable / make_readable / bulk.",
+  note=TB + "PARTIAL until color_total is merged: CPython's float() grammar and str() of numbers are modelled (compared on every generated token), Unicode classes are an oracle.",
+  tech="Lean 4 model with explicit exception outcomes + differential correspondence", ref="6 C14"),
+ "C17": dict(
+  text="Theorems (CmProps/C17.lean) over an effects model of the API: silent_default, silent_invalid, result_indep / result_plain (the visualisers run after the result tuple is fixed), writes_documented, write_only_if_asked, preview_args_hex (the preview only ever receives #rrggbb strings when the result can be re-read, which C06 gives). Tie: every case is run plain and with show / save_report / both inside a private directory with stdout/stderr captured at file-descriptor level; results compared, files listed.",
+  note=TB + "PARTIAL: rich's rendering of hex colours is trusted (exercised on every case, not modelled).",
+  tech="Lean 4 proof over an effects model + observed effects", ref="6 C17"),
 }
 
 def main():
